@@ -406,6 +406,60 @@ impl Endpoint<endpoint_side::Client> {
     }
 }
 
+#[cfg(wtransport_verif)]
+impl Endpoint<endpoint_side::Server> {
+    /// Constructs a *server* endpoint over an abstract socket and runtime (verification hook).
+    ///
+    /// The bind address of the configuration is ignored.
+    pub fn server_with_abstract_socket(
+        server_config: ServerConfig,
+        socket: Arc<dyn quinn::AsyncUdpSocket>,
+        runtime: Arc<dyn quinn::Runtime>,
+    ) -> std::io::Result<Self> {
+        let endpoint = quinn::Endpoint::new_with_abstract_socket(
+            server_config.endpoint_config,
+            Some(server_config.quic_config),
+            socket,
+            runtime,
+        )?;
+
+        Ok(Self {
+            endpoint,
+            side: endpoint_side::Server {
+                _marker: PhantomData,
+            },
+        })
+    }
+}
+
+#[cfg(wtransport_verif)]
+impl Endpoint<endpoint_side::Client> {
+    /// Constructs a *client* endpoint over an abstract socket and runtime (verification hook).
+    ///
+    /// The bind address of the configuration is ignored.
+    pub fn client_with_abstract_socket(
+        client_config: ClientConfig,
+        socket: Arc<dyn quinn::AsyncUdpSocket>,
+        runtime: Arc<dyn quinn::Runtime>,
+    ) -> std::io::Result<Self> {
+        let mut endpoint = quinn::Endpoint::new_with_abstract_socket(
+            client_config.endpoint_config,
+            None,
+            socket,
+            runtime,
+        )?;
+
+        endpoint.set_default_client_config(client_config.quic_config);
+
+        Ok(Self {
+            endpoint,
+            side: endpoint_side::Client {
+                dns_resolver: client_config.dns_resolver,
+            },
+        })
+    }
+}
+
 /// Options for establishing a client WebTransport connection.
 ///
 /// Used in [`Endpoint::connect`].
